@@ -49,6 +49,7 @@ func runStop(c *ctx) {
 		}
 	}
 	netn += shard
+	c.emit("T conc.facts = ok")
 	// deterministic part: notifications after the loop has ended
 	for _, what := range []string{"report", "timeout", "report", "timeout"} {
 		e := newBufEnv(c, netn)
